@@ -77,6 +77,13 @@ def gen_cases(tier, seed):
             yield dict(case, twice=True)
     for k in (1, 2, 3):
         yield {'mode': 'slots', 'k': k}
+    # a registration that failed half way (the mapping names a method that
+    # does not exist), the program carries on and later drops the handler
+    for k in (0, 1, 2):
+        for first in (True, False):
+            for flush in (False, True):
+                yield {'mode': 'half', 'k': k, 'bad_first': first,
+                       'flush': flush}
     # value-like handlers: distinct handlers that compare and hash equal
     for k in (2, 3, 4):
         for hashes in ([0] * k, [0] * (k - 1) + [1]):
@@ -171,9 +178,79 @@ def run_slots(case):
     return res
 
 
+def run_half(case):
+    desper = import_desper()
+    res = Res()
+    got = []
+
+    def on_ev(self, token):
+        got.append((self is None, getattr(self, 'uid', None), token))
+
+    Good = desper.event_handler(ev='on_ev')(type('G', (), {'on_ev': on_ev}))
+    mapping = {'zz': 'missing', 'ev': 'on_ev'} if case['bad_first'] \
+        else {'ev': 'on_ev', 'zz': 'missing'}
+    Bad = type('B', (), {'on_ev': on_ev, '__events__': mapping})
+    d = desper.EventDispatcher()
+    good = []
+    for uid in range(case['k']):
+        g = Good()
+        g.uid = uid
+        good.append(g)
+        d.add_handler(g)
+    bad = Bad()
+    bad.uid = 'bad'
+    ref = weakref.ref(bad)
+    try:
+        d.add_handler(bad)
+        res.tags['half_registration'].add('accepted')
+    except Exception as ex:
+        res.tags['half_registration'].add(type(ex).__name__)
+    del bad
+    gc.collect()
+    if ref() is not None:
+        res.div(0, 'handler-kept-alive', 'a handler whose registration '
+                'failed half way is kept alive by the dispatcher', 'dead',
+                'alive')
+        return res
+    try:
+        if case['flush']:
+            d.dispatch_enabled = False
+            d.dispatch('ev', 1)
+            d.dispatch_enabled = True
+        else:
+            d.dispatch('ev', 1)
+    except Exception as ex:
+        res.div(1, 'operation-raised', f'{type(ex).__name__}: {ex}',
+                'no exception', repr(ex))
+        return res
+    res.stats['dispatches_checked'] += 1
+    if any(e[0] for e in got):
+        res.div(1, 'none-receiver', 'a callback was invoked with a missing '
+                '(None) receiver', 'never', got)
+    elif sorted(e[1] for e in got) != list(range(case['k'])):
+        res.div(1, 'delivery-count', 'the live handlers did not receive the '
+                'event once each', list(range(case['k'])), got)
+    res.nontrivial = True
+    res.sample = {'mode': 'half', 'got': got}
+    return res
+
+
 def run_case(case):
     if case.get('mode') == 'slots':
         return run_slots(case)
+    if case.get('mode') == 'half':
+        unraisable = []
+        old_hook = sys.unraisablehook
+        sys.unraisablehook = lambda u: unraisable.append(repr(u.exc_value))
+        try:
+            res = run_half(case)
+        finally:
+            sys.unraisablehook = old_hook
+        if unraisable and not res.divs:
+            res.div(2, 'unraisable-in-cleanup', 'an exception was swallowed '
+                    'inside the clean-up that runs when a handler is '
+                    'collected', 'no exception', unraisable[:3])
+        return res
     unraisable = []
     old_hook = sys.unraisablehook
     sys.unraisablehook = lambda u: unraisable.append(
